@@ -149,6 +149,7 @@ type Exec struct {
 	goMode   string
 	pending  []func()
 	heapSeq  int
+	curFn    *ssa.Function
 }
 
 func NewExec(eng *Engine, sol *Solver, harness string, prefix []uint64) *Exec {
@@ -667,7 +668,19 @@ func (ex *Exec) call(caller *frame, fn Value, args []Value, pos token.Pos) Value
 
 // throw raises a run-time panic of the interpreted program.
 func (ex *Exec) throw(msg string) {
-	panic(targetPanic{v: IfaceV{t: ex.runtimeErrType(), v: ex.mkStr(msg)}, msg: "runtime error: " + msg})
+	panic(targetPanic{v: IfaceV{t: ex.runtimeErrType(), v: ex.mkStr(msg)}, msg: "runtime error: " + msg, where: ex.whereName()})
+}
+
+// whereName names the innermost non-harness function being executed (used to label panics).
+func (ex *Exec) whereName() string {
+	if ex.curFn == nil {
+		return ""
+	}
+	f := ex.curFn
+	for f.Parent() != nil {
+		f = f.Parent()
+	}
+	return f.Name()
 }
 
 func (ex *Exec) runtimeErrType() types.Type {
@@ -834,7 +847,7 @@ func (fr *frame) checkLoop() {
 		}
 		if same {
 			pos := ex.eng.prog.Fset.Position(fr.block.Instrs[0].Pos())
-			ex.reportViolation("nonterm", "nontermination", fmt.Sprintf("loop at %s in %s repeats an identical state (lasso)", pos, fr.fn), true)
+			ex.reportViolation("nonterm", "nontermination:"+fr.fn.Name(), fmt.Sprintf("loop at %s in %s repeats an identical state (lasso)", pos, fr.fn), true)
 			panic(pathEnd{"nonterm", "lasso"})
 		}
 	}
@@ -1010,6 +1023,7 @@ func (fr *frame) prepareCall(c *ssa.CallCommon) (Value, []Value) {
 
 func (fr *frame) visit(instr ssa.Instruction) continuation {
 	ex := fr.ex
+	ex.curFn = fr.fn
 	switch in := instr.(type) {
 	case *ssa.DebugRef:
 	case *ssa.UnOp:
@@ -1074,7 +1088,7 @@ func (fr *frame) visit(instr ssa.Instruction) continuation {
 		fr.runDefers()
 	case *ssa.Panic:
 		v := fr.get(in.X)
-		panic(targetPanic{v: v, msg: ex.panicMessage(v)})
+		panic(targetPanic{v: v, msg: ex.panicMessage(v), where: ex.whereName()})
 	case *ssa.Send:
 		ex.chanSend(fr.get(in.Chan).(*ChanV), fr.get(in.X))
 	case *ssa.Store:
